@@ -27,21 +27,23 @@ import (
 	"go/format"
 	"go/importer"
 	"go/parser"
+	"go/printer"
 	"go/token"
 	"go/types"
 	"io"
 	"os"
 	"os/exec"
 	"path/filepath"
+	"reflect"
 	"sort"
 	"strconv"
 	"strings"
 )
 
 const (
-	seamImport = "github.com/josephburnett/jd/v2/verif/seam"
+	seamImport  = "github.com/josephburnett/jd/v2/verif/seam"
 	simosImport = "github.com/josephburnett/jd/v2/verif/simos"
-	shimPrefix = "github.com/josephburnett/jd/v2/verif/shim/"
+	shimPrefix  = "github.com/josephburnett/jd/v2/verif/shim/"
 )
 
 type listedPkg struct {
@@ -59,10 +61,13 @@ type siteReport struct {
 }
 
 type report struct {
-	MapRangeSites []siteReport `json:"map_range_sites"`
-	Mains         []string     `json:"mains"`
-	ShimmedImport []string     `json:"shimmed_imports"`
-	GlobalsReset  []string     `json:"globals_reset"`
+	MapRangeSites  []siteReport `json:"map_range_sites"`
+	Mains          []string     `json:"mains"`
+	ShimmedImport  []string     `json:"shimmed_imports"`
+	GlobalsReset   []string     `json:"globals_reset"`
+	GoStatements   []string     `json:"go_statements"`
+	YieldPoints    int          `json:"yield_points"`
+	OrderedSelects int          `json:"ordered_selects"`
 }
 
 var rep report
@@ -146,7 +151,7 @@ func instrumentMapRanges(relRoot, modDir, pkgPattern string, isMain bool) {
 			}
 		},
 	}
-	info := &types.Info{Types: map[ast.Expr]types.TypeAndValue{}, Defs: map[*ast.Ident]types.Object{}}
+	info := &types.Info{Types: map[ast.Expr]types.TypeAndValue{}, Defs: map[*ast.Ident]types.Object{}, Uses: map[*ast.Ident]types.Object{}, Selections: map[*ast.SelectorExpr]*types.Selection{}}
 	_, _ = conf.Check(target.ImportPath, fset, files, info)
 	mainTouched := map[int]bool{}
 	if isMain {
@@ -182,6 +187,10 @@ func instrumentMapRanges(relRoot, modDir, pkgPattern string, isMain bool) {
 			changed = true
 			return true
 		})
+		if instrumentConcurrency(fset, af, info, relRoot) {
+			addImport(af, "verifsimos", simosImport)
+			changed = true
+		}
 		if !isMain && addGlobalsReset(af, info, i) {
 			addImport(af, "verifsimos", simosImport)
 			changed = true
@@ -281,6 +290,11 @@ func addGlobalsReset(af *ast.File, info *types.Info, idx int) bool {
 }
 
 func addImport(af *ast.File, name, path string) {
+	for _, im := range af.Imports {
+		if im.Name != nil && im.Name.Name == name && im.Path.Value == strconv.Quote(path) {
+			return
+		}
+	}
 	spec := &ast.ImportSpec{
 		Name: ast.NewIdent(name),
 		Path: &ast.BasicLit{Kind: token.STRING, Value: strconv.Quote(path)},
@@ -293,6 +307,11 @@ func addImport(af *ast.File, name, path string) {
 func writeFile(fset *token.FileSet, af *ast.File, name string) {
 	var buf bytes.Buffer
 	if err := format.Node(&buf, fset, af); err != nil {
+		if os.Getenv("VERIF_INSTRUMENT_DEBUG") != "" {
+			var raw bytes.Buffer
+			printer.Fprint(&raw, fset, af)
+			os.WriteFile("/var/tmp/instrument-debug.go", raw.Bytes(), 0o644)
+		}
 		die("format %s: %v", name, err)
 	}
 	if err := os.WriteFile(name, buf.Bytes(), 0o644); err != nil {
@@ -310,6 +329,7 @@ var shimOf = map[string]string{
 	"math/rand": "rand",
 	"time":      "time",
 	"context":   "context",
+	"sync":      "sync",
 	// "flag" is per binary, see below
 }
 
@@ -322,6 +342,7 @@ var libShimOf = map[string]string{
 	"io/ioutil": "ioutil",
 	"time":      "time",
 	"context":   "context",
+	"sync":      "sync",
 }
 
 // shimLibrary points the effectful imports of the library package in dir at
@@ -440,6 +461,7 @@ func main() {
 	// Order matters: type-check while the tree is still the original program.
 	// the main packages first: their type check needs the export data of the
 	// libraries as they are in the original program
+	prescanGo(filepath.Join(r, "v2", "jd"), r, filepath.Join(r, "v2"), filepath.Join(r, "lib"))
 	instrumentMapRanges(r, filepath.Join(r, "v2"), "./jd", true)
 	instrumentMapRanges(r, r, ".", true)
 	instrumentMapRanges(r, filepath.Join(r, "v2"), ".", false)
@@ -574,4 +596,503 @@ func addProcessStart(files []*ast.File, info *types.Info) map[int]bool {
 	touched[firstFile] = true
 	rep.GlobalsReset = append(rep.GlobalsReset, fmt.Sprintf("main package: %d variables re-initialised and %d init functions re-run at every process start", n, k))
 	return touched
+}
+
+// ---------------------------------------------------------------- goroutines
+
+func simosCall(fn string, args ...ast.Expr) *ast.CallExpr {
+	return &ast.CallExpr{Fun: &ast.SelectorExpr{X: ast.NewIdent("verifsimos"), Sel: ast.NewIdent(fn)}, Args: args}
+}
+
+func strLit(s string) ast.Expr { return &ast.BasicLit{Kind: token.STRING, Value: strconv.Quote(s)} }
+
+// syncOpAtLevel reports whether statement s, not counting nested blocks and
+// function literals, performs an operation at which goroutines meet: a channel
+// send, receive or close, a select, or a call of a method of a package sync
+// type or of a sync/atomic function.
+func syncOpAtLevel(s ast.Node, info *types.Info) bool {
+	found := false
+	first := true
+	ast.Inspect(s, func(n ast.Node) bool {
+		if found || n == nil {
+			return false
+		}
+		switch x := n.(type) {
+		case *ast.BlockStmt:
+			if !first {
+				return false
+			}
+		case *ast.FuncLit:
+			return false
+		case *ast.GoStmt, *ast.DeferStmt:
+			if !first {
+				return false
+			}
+		case *ast.SelectStmt, *ast.SendStmt:
+			found = true
+		case *ast.UnaryExpr:
+			if x.Op == token.ARROW {
+				found = true
+			}
+		case *ast.RangeStmt:
+			if tv, ok := info.Types[x.X]; ok && tv.Type != nil {
+				if _, isChan := tv.Type.Underlying().(*types.Chan); isChan {
+					found = true
+				}
+			}
+		case *ast.CallExpr:
+			switch f := x.Fun.(type) {
+			case *ast.Ident:
+				if f.Name == "close" {
+					if _, isBuiltin := info.Uses[f].(*types.Builtin); isBuiltin {
+						found = true
+					}
+				}
+			case *ast.SelectorExpr:
+				if sel := info.Selections[f]; sel != nil && sel.Obj().Pkg() != nil && sel.Obj().Pkg().Path() == "sync" {
+					switch f.Sel.Name {
+					case "Lock", "RLock", "Wait", "Do", "Unlock", "RUnlock", "Done", "Broadcast", "Signal":
+						found = true
+					}
+				}
+				if obj := info.Uses[f.Sel]; obj != nil && obj.Pkg() != nil && obj.Pkg().Path() == "sync/atomic" {
+					found = true
+				}
+			}
+		}
+		first = false
+		return !found
+	})
+	return found
+}
+
+// instrumentConcurrency gives every go statement an identity and puts a yield
+// point before and after every statement at which goroutines meet.
+func instrumentConcurrency(fset *token.FileSet, af *ast.File, info *types.Info, relRoot string) bool {
+	changed := false
+	sawGo := false
+	site := func(n ast.Node) string {
+		pos := fset.Position(n.Pos())
+		rel, _ := filepath.Rel(relRoot, pos.Filename)
+		return fmt.Sprintf("%s:%d", filepath.ToSlash(rel), pos.Line)
+	}
+	yield := func(where string) ast.Stmt {
+		rep.YieldPoints++
+		return &ast.ExprStmt{X: simosCall("Yield", strLit(where))}
+	}
+	doneGo := map[*ast.GoStmt]bool{}
+	doneSel := map[*ast.SelectStmt]bool{}
+	rewriteGo := func(st *ast.GoStmt) ast.Stmt {
+		sawGo = true
+		doneGo[st] = true
+		where := site(st)
+		rep.GoStatements = append(rep.GoStatements, where)
+		spawn := &ast.AssignStmt{Lhs: []ast.Expr{ast.NewIdent("verifGid")}, Tok: token.DEFINE, Rhs: []ast.Expr{simosCall("Spawn", strLit(where))}}
+		born := &ast.ExprStmt{X: simosCall("Born", ast.NewIdent("verifGid"))}
+		// defer func() { r := recover(); verifsimos.Ended(); if r != nil { verifsimos.GoroutineCrashed(r) } }()
+		guard := &ast.DeferStmt{Call: &ast.CallExpr{Fun: &ast.FuncLit{Type: &ast.FuncType{Params: &ast.FieldList{}}, Body: &ast.BlockStmt{List: []ast.Stmt{
+			&ast.AssignStmt{Lhs: []ast.Expr{ast.NewIdent("r")}, Tok: token.DEFINE, Rhs: []ast.Expr{&ast.CallExpr{Fun: ast.NewIdent("recover")}}},
+			&ast.ExprStmt{X: simosCall("Ended")},
+			&ast.IfStmt{
+				Cond: &ast.BinaryExpr{X: ast.NewIdent("r"), Op: token.NEQ, Y: ast.NewIdent("nil")},
+				Body: &ast.BlockStmt{List: []ast.Stmt{&ast.ExprStmt{X: simosCall("GoroutineCrashed", ast.NewIdent("r"))}}},
+			},
+		}}}}}
+		if fl, ok := st.Call.Fun.(*ast.FuncLit); ok {
+			fl.Body.List = append([]ast.Stmt{guard, born}, fl.Body.List...)
+			return &ast.BlockStmt{List: []ast.Stmt{spawn, st}}
+		}
+		// go f(args): the function value and the arguments are evaluated by
+		// the parent, as the language says; the call itself moves into a
+		// literal that first takes its identity
+		list := []ast.Stmt{spawn}
+		fun := st.Call.Fun
+		direct := false
+		switch f := fun.(type) {
+		case *ast.Ident:
+			_, direct = info.Uses[f].(*types.Func)
+		case *ast.SelectorExpr:
+			if info.Selections[f] == nil { // pkg.Func
+				_, direct = info.Uses[f.Sel].(*types.Func)
+			}
+		}
+		if !direct {
+			list = append(list, &ast.AssignStmt{Lhs: []ast.Expr{ast.NewIdent("verifFn")}, Tok: token.DEFINE, Rhs: []ast.Expr{fun}})
+			fun = ast.NewIdent("verifFn")
+		}
+		var args []ast.Expr
+		for i, a := range st.Call.Args {
+			tv := info.Types[a]
+			if tv.Value != nil || tv.IsNil() || tv.Type == nil {
+				args = append(args, a) // constants and nil need no early evaluation
+				continue
+			}
+			name := fmt.Sprintf("verifA%d", i)
+			list = append(list, &ast.AssignStmt{Lhs: []ast.Expr{ast.NewIdent(name)}, Tok: token.DEFINE, Rhs: []ast.Expr{a}})
+			args = append(args, ast.NewIdent(name))
+		}
+		call := &ast.CallExpr{Fun: fun, Args: args, Ellipsis: st.Call.Ellipsis}
+		if st.Call.Ellipsis.IsValid() {
+			call.Ellipsis = token.Pos(1)
+		}
+		lit := &ast.FuncLit{Type: &ast.FuncType{Params: &ast.FieldList{}}, Body: &ast.BlockStmt{List: []ast.Stmt{guard, born, &ast.ExprStmt{X: call}}}}
+		ngs := &ast.GoStmt{Call: &ast.CallExpr{Fun: lit}}
+		doneGo[ngs] = true
+		list = append(list, ngs)
+		return &ast.BlockStmt{List: list}
+	}
+	process := func(list []ast.Stmt) []ast.Stmt {
+		if len(list) > 0 {
+			// the body of a switch or select is a list of clauses, not of statements
+			switch list[0].(type) {
+			case *ast.CaseClause, *ast.CommClause:
+				return list
+			}
+		}
+		var out []ast.Stmt
+		for _, s := range list {
+			inner := s
+			if ls, ok := s.(*ast.LabeledStmt); ok {
+				inner = ls.Stmt
+			}
+			if gs, ok := inner.(*ast.GoStmt); ok && !doneGo[gs] {
+				blk := rewriteGo(gs)
+				if ls, ok := s.(*ast.LabeledStmt); ok {
+					ls.Stmt = blk
+					out = append(out, ls)
+				} else {
+					out = append(out, blk)
+				}
+				changed = true
+				continue
+			}
+			if ss, ok := inner.(*ast.SelectStmt); ok && doneSel[ss] {
+				out = append(out, s)
+				continue
+			}
+			if isSimosStmt(s) || !syncOpAtLevel(s, info) {
+				out = append(out, s)
+				continue
+			}
+			changed = true
+			where := site(s)
+			out = append(out, yield(where), s)
+			switch x := inner.(type) {
+			case *ast.ReturnStmt, *ast.BranchStmt:
+			case *ast.ForStmt:
+				// a loop whose condition polls: every iteration is a meeting point
+				x.Body.List = append([]ast.Stmt{yield(where + " loop")}, x.Body.List...)
+				out = append(out, yield(where+" after"))
+			case *ast.RangeStmt:
+				x.Body.List = append([]ast.Stmt{yield(where + " loop")}, x.Body.List...)
+				out = append(out, yield(where+" after"))
+			case *ast.SelectStmt:
+				for _, c := range x.Body.List {
+					cc := c.(*ast.CommClause)
+					cc.Body = append([]ast.Stmt{yield(where + " woke")}, cc.Body...)
+				}
+				if det := orderedSelect(fset, x, where); det != nil {
+					ast.Inspect(det, func(n ast.Node) bool {
+						if ss, ok := n.(*ast.SelectStmt); ok {
+							doneSel[ss] = true
+						}
+						return true
+					})
+					// replace the select just appended by its ordered form
+					if ls, ok := s.(*ast.LabeledStmt); ok {
+						ls.Stmt = det
+					} else {
+						out[len(out)-1] = det
+					}
+				}
+			default:
+				out = append(out, yield(where+" after"))
+			}
+		}
+		return out
+	}
+	ast.Inspect(af, func(n ast.Node) bool {
+		switch x := n.(type) {
+		case *ast.BlockStmt:
+			x.List = process(x.List)
+		case *ast.CaseClause:
+			x.Body = process(x.Body)
+		case *ast.CommClause:
+			x.Body = process(x.Body)
+		}
+		return true
+	})
+	if treeHasGo {
+		// A tree with goroutines: plain memory is shared too, so a goroutine
+		// must be pre-emptible between any two calls and loop iterations, not
+		// only where it synchronises. Every function body and every loop body
+		// begins with a yield point (free while only one goroutine exists).
+		ast.Inspect(af, func(n ast.Node) bool {
+			var body *ast.BlockStmt
+			switch x := n.(type) {
+			case *ast.FuncDecl:
+				if x.Name.Name == "init" && x.Recv == nil {
+					return true
+				}
+				body = x.Body
+			case *ast.FuncLit:
+				if !x.Pos().IsValid() {
+					return false // generated by this program
+				}
+				body = x.Body
+			case *ast.ForStmt:
+				body = x.Body
+			case *ast.RangeStmt:
+				body = x.Body
+			}
+			if body == nil {
+				return true
+			}
+			// after the goroutine prologue (guard, Born), if there is one
+			at := 0
+			for at < len(body.List) && isPrologue(body.List[at]) {
+				at++
+			}
+			if at < len(body.List) && isSimosStmt(body.List[at]) {
+				return true // already a yield point
+			}
+			y := yield(site(body))
+			body.List = append(body.List[:at:at], append([]ast.Stmt{y}, body.List[at:]...)...)
+			changed = true
+			return true
+		})
+	}
+	if sawGo {
+		af.Decls = append(af.Decls, &ast.FuncDecl{Name: ast.NewIdent("init"), Type: &ast.FuncType{Params: &ast.FieldList{}}, Body: &ast.BlockStmt{List: []ast.Stmt{
+			&ast.AssignStmt{Lhs: []ast.Expr{&ast.SelectorExpr{X: ast.NewIdent("verifsimos"), Sel: ast.NewIdent("TreeHasGoroutines")}}, Tok: token.ASSIGN, Rhs: []ast.Expr{ast.NewIdent("true")}},
+		}}})
+	}
+	return changed
+}
+
+// isPrologue recognises what rewriteGo puts at the top of a goroutine body.
+func isPrologue(s ast.Stmt) bool {
+	if _, ok := s.(*ast.DeferStmt); ok {
+		found := false
+		ast.Inspect(s, func(n ast.Node) bool {
+			if id, ok := n.(*ast.Ident); ok && id.Name == "GoroutineCrashed" {
+				found = true
+			}
+			return !found
+		})
+		return found
+	}
+	if es, ok := s.(*ast.ExprStmt); ok {
+		if ce, ok := es.X.(*ast.CallExpr); ok {
+			if se, ok := ce.Fun.(*ast.SelectorExpr); ok && se.Sel.Name == "Born" {
+				return true
+			}
+		}
+	}
+	return false
+}
+
+// treeHasGo: some package of the tree under test contains a go statement
+// (found by a syntactic pre-scan before anything is rewritten).
+var treeHasGo bool
+
+func prescanGo(dirs ...string) {
+	fset := token.NewFileSet()
+	for _, dir := range dirs {
+		ents, err := os.ReadDir(dir)
+		if err != nil {
+			die("%v", err)
+		}
+		for _, e := range ents {
+			n := e.Name()
+			if e.IsDir() || !strings.HasSuffix(n, ".go") || strings.HasSuffix(n, "_test.go") {
+				continue
+			}
+			af, err := parser.ParseFile(fset, filepath.Join(dir, n), nil, parser.SkipObjectResolution)
+			if err != nil {
+				continue
+			}
+			if af.Name.Name == "main" && dir != dirs[0] && dir != dirs[1] {
+				continue
+			}
+			ast.Inspect(af, func(n ast.Node) bool {
+				if _, ok := n.(*ast.GoStmt); ok {
+					treeHasGo = true
+				}
+				return !treeHasGo
+			})
+		}
+	}
+}
+
+func isSimosStmt(s ast.Stmt) bool {
+	es, ok := s.(*ast.ExprStmt)
+	if !ok {
+		return false
+	}
+	ce, ok := es.X.(*ast.CallExpr)
+	if !ok {
+		return false
+	}
+	se, ok := ce.Fun.(*ast.SelectorExpr)
+	if !ok {
+		return false
+	}
+	id, ok := se.X.(*ast.Ident)
+	return ok && id.Name == "verifsimos"
+}
+
+// ---------------------------------------------------------------- select
+
+// orderedSelect removes the one source of nondeterminism the scheduler cannot
+// own otherwise: when several cases of a select are ready, Go picks one at
+// random. A select whose cases are all receives (plus, possibly, a default) is
+// rewritten into polls of one case at a time, in source order or in reverse
+// order as the simulator says, followed by the original select for the case
+// that none is ready:
+//
+//	if verifsimos.SelectForward(site) {
+//		select { case A: ...; default: select { case B: ...; default: <original> } }
+//	} else {
+//		select { case B: ...; default: select { case A: ...; default: <original> } }
+//	}
+//
+// Bodies are copied, so break, continue and return keep their meaning. Selects
+// with a send case, with fewer than two receive cases, or with a label inside
+// a body are left alone (nil is returned).
+func orderedSelect(fset *token.FileSet, sel *ast.SelectStmt, site string) ast.Stmt {
+	var recvs []*ast.CommClause
+	for _, c := range sel.Body.List {
+		cc := c.(*ast.CommClause)
+		if cc.Comm == nil {
+			continue
+		}
+		if _, isSend := cc.Comm.(*ast.SendStmt); isSend {
+			return nil
+		}
+		recvs = append(recvs, cc)
+	}
+	if len(recvs) < 2 || len(recvs) > 4 {
+		return nil
+	}
+	hasLabel := false
+	ast.Inspect(sel, func(n ast.Node) bool {
+		if _, ok := n.(*ast.LabeledStmt); ok {
+			hasLabel = true
+		}
+		return !hasLabel
+	})
+	if hasLabel {
+		return nil
+	}
+	// the channel operands are evaluated once, in source order, as the
+	// language says; the copies below all use the values
+	var hoist []ast.Stmt
+	for i, cc := range recvs {
+		var u *ast.UnaryExpr
+		switch c := cc.Comm.(type) {
+		case *ast.ExprStmt:
+			u, _ = c.X.(*ast.UnaryExpr)
+		case *ast.AssignStmt:
+			if len(c.Rhs) == 1 {
+				u, _ = c.Rhs[0].(*ast.UnaryExpr)
+			}
+		}
+		if u == nil || u.Op != token.ARROW {
+			return nil
+		}
+		name := fmt.Sprintf("verifC%d", i)
+		hoist = append(hoist, &ast.AssignStmt{Lhs: []ast.Expr{ast.NewIdent(name)}, Tok: token.DEFINE, Rhs: []ast.Expr{u.X}})
+		u.X = ast.NewIdent(name)
+	}
+	var text bytes.Buffer
+	if err := printer.Fprint(&text, fset, sel); err != nil {
+		return nil
+	}
+	clone := func() *ast.SelectStmt {
+		src := "package p\nfunc _() {\n" + text.String() + "\n}\n"
+		f, err := parser.ParseFile(token.NewFileSet(), "", src, parser.SkipObjectResolution)
+		if err != nil {
+			return nil
+		}
+		c := f.Decls[0].(*ast.FuncDecl).Body.List[0].(*ast.SelectStmt)
+		clearPos(reflect.ValueOf(c))
+		return c
+	}
+	build := func(order []int) ast.Stmt {
+		var inner ast.Stmt
+		last := clone()
+		if last == nil {
+			return nil
+		}
+		inner = last
+		for k := len(order) - 1; k >= 0; k-- {
+			c := clone()
+			if c == nil {
+				return nil
+			}
+			var pick *ast.CommClause
+			n := 0
+			for _, cl := range c.Body.List {
+				cc := cl.(*ast.CommClause)
+				if cc.Comm == nil {
+					continue
+				}
+				if n == order[k] {
+					pick = cc
+				}
+				n++
+			}
+			inner = &ast.SelectStmt{Body: &ast.BlockStmt{List: []ast.Stmt{
+				pick,
+				&ast.CommClause{Body: []ast.Stmt{inner}},
+			}}}
+		}
+		return inner
+	}
+	fwd, rev := make([]int, len(recvs)), make([]int, len(recvs))
+	for i := range recvs {
+		fwd[i], rev[i] = i, len(recvs)-1-i
+	}
+	f, r := build(fwd), build(rev)
+	if f == nil || r == nil {
+		return nil
+	}
+	rep.OrderedSelects++
+	return &ast.BlockStmt{List: append(hoist, &ast.IfStmt{
+		Cond: simosCall("SelectForward", strLit(site)),
+		Body: &ast.BlockStmt{List: []ast.Stmt{f}},
+		Else: &ast.BlockStmt{List: []ast.Stmt{r}},
+	})}
+}
+
+var posType = reflect.TypeOf(token.NoPos)
+
+// clearPos zeroes every position in a syntax tree that was parsed from
+// generated text, so that the printer lays it out from scratch.
+func clearPos(v reflect.Value) {
+	switch v.Kind() {
+	case reflect.Pointer, reflect.Interface:
+		if !v.IsNil() {
+			clearPos(v.Elem())
+		}
+	case reflect.Struct:
+		for i := 0; i < v.NumField(); i++ {
+			f := v.Field(i)
+			if f.Type() == posType {
+				if f.CanSet() {
+					f.SetInt(0)
+				}
+				continue
+			}
+			if v.Type().Field(i).Name == "Obj" {
+				continue // *ast.Object cycles
+			}
+			clearPos(f)
+		}
+	case reflect.Slice:
+		for i := 0; i < v.Len(); i++ {
+			clearPos(v.Index(i))
+		}
+	}
 }
